@@ -1,5 +1,6 @@
 """Property table: which pipeline decides which property."""
 from . import rec
+from . import gen
 
 
 def _c13(res):
@@ -28,7 +29,53 @@ def _c11(res):
         nontrivial=lambda f, r: "40" in [r[1][i:i + 2] for i in range(0, len(r[1]), 2)] and len(r[1]) >= 10)
 
 
+GEN = {
+    # pid: (family, driver modes, Props module, theorems, aspects that are violations of THIS property, rule text)
+    "C01": ("c01", "", "Gvlean.Props.C01", ["Props.c01", "Props.c01_shape", "Props.c01_nan", "Props.c01_guard"], ["spec", "gen_fail", "build"],
+            "one struct per (gt|gte|lt|lte, documented numeric type incl. named, random representable bound incl. type extremes and 2^53+1), top level or nested 1-2 levels; values = type lattice (min, min+1, -1, 0, 1, max-1, max / float: +-0, denormal, +-max, +-Inf, quiet/signalling/negative NaN) plus N-1, N, N+1 (N +- 1ulp for floats)"),
+    "C02": ("c02", "", "Gvlean.Props.C02", ["Props.c02", "Props.c02_check", "Props.c02_named", "Props.c02_switch_underlying"], ["spec", "gen_fail", "build"],
+            "one struct per documented field type of required (all basic kinds, byte, rune, complex, pointer, any, error, interface{}, func, slices, arrays, map, chan) and a named type over each; values: zero, non-zero, nil vs empty non-nil, -0.0, NaN, 0+0i, buffered/empty channels"),
+    "C03": ("c03", "", "Gvlean.Props.C03", ["Props.c03", "Props.c03_meaning", "Props.c03_ascii", "Props.c03_invalid_bytes"], ["spec", "gen_fail", "build"],
+            "minlength/maxlength/length on string fields with N in {0,1,2,3,5,10}; values: strings of N-1, N, N+1 code points made of 1-, 2-, 3-, 4-byte runes and invalid bytes, mixed tails, byte-length-N strings with fewer code points"),
+    "C04": ("c04", "", "Gvlean.Props.C04", ["Props.c04", "Props.c04_meaning", "Props.c04_guard"], ["spec", "gen_fail", "build"],
+            "minitems/maxitems on []string, []int, []byte (ASCII and multi-byte content), [3]int, [1]string, map[string]int, chan int and named types over them; lengths 0..N+2, nil vs empty, channels with k buffered elements"),
+    "C05": ("c05", "", "Gvlean.Props.C05", ["Props.c05", "Props.c05_zero_not_special", "Props.c05_item_forms"], ["spec", "gen_fail", "build"],
+            "enum lists of 1..8 items (duplicates, padded items, non-ASCII) on string, every integer kind, float32/64 and named types; values: every item, case changes, prefixes, +-1, padded forms, the zero value"),
+    "C06": ("c06", "", "Gvlean.Props.C06", ["Props.c06", "Props.c06_languages", "Props.c06_alpha", "Props.c06_numeric"], ["spec", "gen_fail", "build"],
+            "the seven format markers on string fields, top level and nested; values: member / non-member corpora per language (incl. the seeded-change triggers: DEL in local part, U+0161, '{' host, control byte in UUID, Latin-1 bytes)"),
+    "C07": ("c07", "is", "Gvlean.Props.C07", ["Props.c07", "Props.c07_nil_iff", "Props.c07_nil_receiver", "Props.c07_is"], ["spec", "is", "nilrecv", "gen_fail", "build"],
+            "random Clean structs: 1..8 fields, 0..4 documented markers per field from every family, optional nesting to depth 2, optional struct-level markers, 1-3 structs per package sharing field names; values: base vector, every candidate of every leaf one at a time, 12 random vectors; errors.Is against every exported Err* (plain and %w-wrapped), nil receiver"),
+    "C15": ("c07", "is,ctx", "Gvlean.Props.C15", ["Props.c15_cancelled", "Props.c15_already_done", "Props.c15_undisturbed", "Props.c15_wrappers"], ["ctx", "wrappers", "unknown"],
+            "the random Clean structs of C07; for every value a context that turns done at its k-th Err() call for every k from 0 to polls+1, Canceled and DeadlineExceeded; observed result and number of Err() calls compared with the contract and with the Lean model; wrappers Validate/ValidateT/ValidateContext(Background) compared with ValidateTContext"),
+    "C16": ("c07", "mut", "Gvlean.Props.C16", ["Props.c16_write_set", "Props.c16_helpers_pure"], ["mut", "unknown"],
+            "the random Clean structs of C07; deep snapshot of the receiver (slice/map contents, pointer targets) before and after two Validate() calls, results compared, Value of every exported sentinel checked unset; statement forms of the generated file outside the template grammar are reported"),
+    "C17": ("all", "is,ctx", "Gvlean.Props.C17", ["Props.c17_recognizers", "Props.c17_validate", "Props.c17_validate_ctx", "Props.c17_nil_receiver"], ["panic"],
+            "the rule x type matrix and random structs on the adversarial value lattice (zero, -1, min, max, NaN, +-Inf, nil, empty, invalid UTF-8, DEL/control bytes) under recover(): Validate, ValidateT, ValidateContext with every cancellation point, nil receiver"),
+    "C19": ("all", "alloc", "Gvlean.Props.C19", ["Props.c19", "Props.c19_only_failing_branches"], ["alloc"],
+            "every (non-CEL marker, documented type) scenario and the random multi-field structs; testing.AllocsPerRun(20) around Validate(), ValidateT(t) and ValidateContext(Background) for every value whose observed result is nil"),
+    "C09": ("c09", "", "Gvlean.Props.C09", ["Props.c09_never_accepted", "Props.c09_coverage", "Props.c09_inapplicable", "Props.c09_marker_order"], ["spec", "gen_fail", "build"],
+            "declaration shapes: struct-level vs per-field placement of the same markers on identical values, struct-level markers over fields of every type (inapplicable ones must be left unconstrained), 1..5 markers per field, up to 100 fields, fields before/after nested structs"),
+}
+
+
+def _gen_prop(pid):
+    def run(res):
+        family, modes, module, theorems, aspects, rule = GEN[pid]
+        broken, model_ok = gen.prepare(res, module, theorems)
+        if broken is None:
+            return
+        rows, _ = gen.run_harness(family, res.tier, res.seed, modes)
+        ev = gen.evaluate(rows, model_ok, aspects)
+        nontriv = len(set((r["decl_sexp"], v) for r in rows if r.get("obs") for v, o in zip(r["values"], r["obs"]) if o != "nil")) if pid not in ("C19", "C15", "C16", "C17") else ev["nvalues"]
+        gen.fill_coverage(res, ev, rows, "corr-gen + corr-sem: " + rule + "; every scenario is generated by the real govalid binary built from the working tree, dumped structurally (go/parser), compiled and run; each (struct, value) is evaluated by the compiled Lean model (modeldrv) and by the Spec (specdrv); distinct by (declaration, value); non-trivial = at least one rule violated (C19/C15/C16/C17: every evaluated value)", nontriv)
+        res.assumptions += ["Go values modelled by Gvlean/Go/Val.lean (ints as Int, floats as IEEE bit patterns decoded exactly)",
+                            "marker parameters restricted to decimal literals representable in the field type"]
+        gen.report(res, ev, broken, aspects)
+    return run
+
+
 TABLE = {
+    **{pid: {"run": _gen_prop(pid), "replay": gen.replay, "level": "proof"} for pid in GEN},
     "C11": {"run": _c11, "replay": rec.replay, "level": "proof"},
     "C12": {"run": _c12, "replay": rec.replay, "level": "proof"},
     "C13": {"run": _c13, "replay": rec.replay, "level": "proof"},
